@@ -355,6 +355,29 @@ Section JwtProofs.
       rewrite CH, Pp, Ps, beq_bytes_refl, CT. reflexivity.
   Qed.
 
+  (** What is guaranteed whatever JSON the segments hold (duplicate keys,
+      folded key names, unknown fields, ... are between [encoding/json] and the
+      parsers): the MAC that was checked is over exactly the presented first two
+      segments, the third segment is its canonical encoding, and the header pin
+      and the time check were applied to what the parsers return for the
+      canonical decoding of those very segments. *)
+  Theorem hs_signed_bytes_and_parsed_semantics k pin now tok t :
+    hs_verify k pin now tok = JOk t ->
+    exists hs cs hb cb,
+      tok = hs ++ dot :: cs ++ dot :: b64_encode (mac k (hs ++ dot :: cs)) /\
+      t_payload t = hs ++ dot :: cs /\ t_sig t = mac k (hs ++ dot :: cs) /\
+      nosep dot hs /\ nosep dot cs /\
+      b64_decode_canon hs = Some hb /\ parse_header hb = Some (t_header t) /\
+      b64_decode_canon cs = Some cb /\ parse_claims cb = Some (t_claims t) /\
+      check_header (t_header t) pin = None /\ check_time (t_claims t) now = None.
+  Proof.
+    intros A. apply hs_verify_iff in A.
+    destruct A as (hb & cb & Hh & Hc & -> & Ph & CH & Pc & CT & Pp & Ps).
+    exists (b64_encode hb), (b64_encode cb), hb, cb.
+    unfold Jwt.jwt_sign, jwt_text in *. rewrite <- app_assoc. cbn [app].
+    repeat split; auto; try (now apply b64_nosep); apply b64_canon_iff; auto.
+  Qed.
+
   (** The signed text determines the token: two accepted tokens with the same
       payload text are the same text (no second spelling of the signature). *)
   Theorem hs_token_unique k pin now now' tok tok' t t' :
